@@ -14,7 +14,7 @@ Lemma step_status g s f : let '(_, status, _) := step_gen g s f in 0 <= status.
 Proof.
   unfold step_gen. destruct (ph s); destruct f; cbn;
     repeat match goal with |- context [if ?c then _ else _] => destruct c end;
-    unfold S_OK, S_COMM, S_CHANNEL, S_CLOSED, S_UNEXPECTED, S_URL, S_VERSION; lia.
+    unfold S_OK, S_COMM, S_CHANNEL, S_CLOSED, S_UNEXPECTED, S_URL, S_VERSION, S_OTHER; lia.
 Qed.
 
 (* a response is only ever produced together with status OK *)
@@ -75,7 +75,8 @@ Proof.
               split; [discriminate|]. unfold opened_next. cbn. rewrite orb_false_r. exact Ho.
            ++ split; [destruct opened; reflexivity|]. intros _. split; [reflexivity|].
               split; [discriminate|]. unfold opened_next. cbn. rewrite orb_true_r. discriminate.
-    + destruct (negb (ch =? 0) && negb c);
+    + destruct (k =? 2); [split; [destruct opened; reflexivity|intro H; discriminate H]|].
+      destruct (negb (ch =? 0) && negb c);
         [split; [destruct opened; reflexivity|intro H; discriminate H]|].
       cbn [andb]. destruct iss; cbn [negb].
       * destruct opened; [|specialize (Ho eq_refl); discriminate Ho].
@@ -200,6 +201,7 @@ Proof.
     subst status. unfold step_gen in Hstep. cbn [andb] in Hstep.
     destruct f as [pv b u|rn pv|k c|c|]; try discriminate Hsv.
     + destruct (ph s); try (discriminate Hstep).
+      destruct (k =? 2); [discriminate Hstep|].
       destruct (negb (chan s =? 0) && negb c); [discriminate Hstep|].
       destruct (issued s); [reflexivity|]. cbn [negb] in Hstep. discriminate Hstep.
     + destruct (ph s); try (discriminate Hstep).
